@@ -468,6 +468,20 @@ def check_solution(ctx, year, r, case):
                         if any(':' in f for f in inst_present):
                             skip = True
                         want = float(vals.get(f'{src_form}.{e[2]}', 0.0) or 0.0)
+                elif e[0] == 'capf':
+                    want = statement_sum(r, e[1][1])
+                    if want is None or ':' in fname:
+                        skip = True
+                    else:
+                        want, nbox = want
+                        tol = tol + 0.0051 * nbox
+                        cap = float(vals.get(f'{e[2]}.{e[3]}', 0.0) or 0.0)
+                        if cap < want - tol and abs(float(vals[name] or 0.0) - want) <= tol:
+                            # the total is entered although the instruction limits it to another line: its own bucket
+                            ctx.violation(f'{year}:{base}.{ln}:not-limited-to-{e[2]}.{e[3]}', f'{year} {fname} line {ln} holds the statement total {want:.2f}; its instruction limits it to '
+                                          f'{e[2]} line {e[3]} = {cap:.2f} ("{ins.text[-100:]}" [{src[:60]}])', dict(case, mode='e2e', line=name))
+                            skip = True
+                        want = min(want, cap)
                 elif e[0] == 'sumstmt':
                     want = statement_sum(r, e[1])
                     if want is None:
@@ -556,8 +570,8 @@ def complete_statements(ctx, draw, sc, r):
             continue
         instrs, _ = instructions_for(sc['year'], fname, form, cat)
         for ln, (ins, src) in instrs.items():
-            if ins.expr is not None and ins.expr[0] == 'sumstmt':
-                for sform, boxes in ins.expr[1]:
+            if ins.expr is not None and ins.expr[0] in ('sumstmt', 'capf'):
+                for sform, boxes in (ins.expr[1] if ins.expr[0] == 'sumstmt' else ins.expr[1][1]):
                     for b in boxes:
                         wanted.add((sform, b))
     inputs = dict(sc['inputs'])
@@ -592,6 +606,10 @@ def shard_e2e(ctx, k, payload):
         p['amount_bias'] = data.draw(st.sampled_from(['typical', 'typical', 'large', 'small']))
         if data.draw(st.integers(0, 5)) == 0:
             p.update(status='MarriedFilingJointly', ira='8606', n_r=2, both_spouses_1099r=True)
+        elif data.draw(st.integers(0, 9)) == 0:
+            # little or no tax and foreign tax paid on interest (credits that exceed the tax)
+            p.update(n_w2=0, wage_level='low', n_int=3, n_div=0, n_r=0, huge_interest=True, foreign_tax=True, itemize=False,
+                     amount_bias='large', deps=[], s199a=False, ira='none', n_g=0, s1_income=False)
         sc, r = scenario.build(p, data.draw)
         if r.exc is not None or not r.verdict:
             ctx.count('e2e:not_solved')
